@@ -208,6 +208,9 @@ struct MTask {
     ran: bool,
     joiner: Option<TaskId>,
     fu_stuck: bool,
+    /// legacy capability API: markers of the `map_event` layers of the capability this task
+    /// (and every task it spawns) was started with, innermost first
+    legacy_trail: Vec<u8>,
     kind: Tk,
 }
 
@@ -290,6 +293,7 @@ impl Model {
             ran: false,
             joiner: None,
             fu_stuck: false,
+            legacy_trail: vec![],
             kind,
         });
         let id = self.tasks.len() - 1;
@@ -474,14 +478,26 @@ impl Model {
     }
 
     fn collect_legacy(&mut self, c: CmdId, program: &Cmd) {
+        self.collect_legacy_mapped(c, program, &[])
+    }
+
+    fn collect_legacy_mapped(&mut self, c: CmdId, program: &Cmd, trail: &[u8]) {
         match program {
             Cmd::Async(script) => {
-                self.new_task(c, Tk::Script(script_state(script)));
+                let t = self.new_task(c, Tk::Script(script_state(script)));
+                self.tasks[t].legacy_trail = trail.to_vec();
             }
-            Cmd::All(xs) | Cmd::Collect(xs) => xs.iter().for_each(|x| self.collect_legacy(c, x)),
+            Cmd::All(xs) | Cmd::Collect(xs) => xs.iter().for_each(|x| self.collect_legacy_mapped(c, x, trail)),
             Cmd::And(a, b) => {
-                self.collect_legacy(c, a);
-                self.collect_legacy(c, b);
+                self.collect_legacy_mapped(c, a, trail);
+                self.collect_legacy_mapped(c, b, trail);
+            }
+            // a child capability made with `map_event` (marker 0 = identity): the inner marker
+            // is applied first
+            Cmd::MapEvent(inner, k) => {
+                let mut t: Vec<u8> = if *k == 0 { vec![] } else { vec![*k] };
+                t.extend_from_slice(trail);
+                self.collect_legacy_mapped(c, inner, &t)
             }
             Cmd::Done => {}
             other => panic!("not a legacy program: {other:?}"),
@@ -874,7 +890,12 @@ impl Model {
     }
 
     fn emit_event(&mut self, t: TaskId, tag: u32, val: u64, then: Option<Box<Cmd>>) {
-        let (trail, _) = self.trails(t);
+        let (mut trail, _) = self.trails(t);
+        if !self.tasks[t].legacy_trail.is_empty() {
+            let mut tr = self.tasks[t].legacy_trail.clone();
+            tr.extend(trail);
+            trail = tr;
+        }
         self.ev_out.push((t, EvObs { tag, val, trail }));
         if self.mode.core {
             if let Some(c) = then {
@@ -1464,6 +1485,7 @@ impl Model {
                 Instr::Spawn { script } => {
                     let c = self.tasks[t].cmd;
                     let id = self.new_task(c, Tk::Script(script_state(&script)));
+                    self.tasks[id].legacy_trail = self.tasks[t].legacy_trail.clone();
                     self.ready.push_back(id);
                     st.handles.push(id);
                     st.pc += 1;
@@ -1479,6 +1501,7 @@ impl Model {
                     let mut child = script_state(&script);
                     child.pipe_out = Some(p);
                     let id = self.new_task(c, Tk::Script(child));
+                    self.tasks[id].legacy_trail = self.tasks[t].legacy_trail.clone();
                     self.ready.push_back(id);
                     st.handles.push(id);
                     st.streams.push(Some(StreamSt {
@@ -1562,6 +1585,7 @@ impl Model {
                 Instr::Yield { .. } | Instr::Abandon { .. } => {
                     st.pc += 1;
                 }
+                Instr::AbortCmd { .. } => panic!("AbortCmd is only used by the model-free cases"),
                 Instr::Hold { counter } => {
                     self.holds.entry(counter).or_insert((0, 0)).0 += 1;
                     st.holds.push(counter);
